@@ -181,7 +181,16 @@ fn stacks_env(s: &str, x: u64) -> Vec<(&'static str, Dispatch, RecLayer)> {
     let r3 = RecLayer::default();
     let r4 = RecLayer::default();
     let r5 = RecLayer::default();
+    let r6 = RecLayer::default();
+    let r7 = RecLayer::default();
+    let r8 = RecLayer::default();
+    type DynF = dyn tracing_subscriber::subscribe::Filter<tracing_subscriber::Registry> + Send + Sync;
     vec![
+        // the per-layer filter type-erased: Box<dyn Filter> / Arc<dyn Filter> must forward every callback
+        ("E-box", Dispatch::new(tracing_subscriber::registry().with(r7.clone().with_filter(Box::new(env(s).unwrap()) as Box<DynF>))), r7),
+        ("E-arc", Dispatch::new(tracing_subscriber::registry().with(r8.clone().with_filter(std::sync::Arc::new(env(s).unwrap()) as std::sync::Arc<DynF>))), r8),
+        // EnvFilter::new: the constructor with a default directive (`error`), which applies only to an EMPTY directive string
+        ("E-new", Dispatch::new(tracing_subscriber::registry().with(EnvFilter::new(s)).with(r6.clone())), r6),
         ("E-global", Dispatch::new(tracing_subscriber::registry().with(env(s).unwrap()).with(r1.clone())), r1),
         ("E-plf", Dispatch::new(tracing_subscriber::registry().with(r2.clone().with_filter(env(s).unwrap()))), r2),
         // the EnvFilter as an operand of the FilterExt combinators, next to a LevelFilter of rank x
